@@ -521,7 +521,84 @@ fn scanner_hazard(lang: &str, text: &[u8], kind: &str) -> bool {
     kind != "sentence" && text.contains(&ch)
 }
 
-static PARSE_STARTED: std::sync::atomic::AtomicU64 = std::sync::atomic::AtomicU64::new(0);
+/// The PRIVATE zoo grammar with > 300 symbols (zoo/c02wide/grammar.js).
+const WIDE: &str = "c02wide";
+
+/// Documents of zoo/c02wide that are VALID by construction (kind `wide-valid`: judged to parse without
+/// ERROR / MISSING, every literal leaf's kind = its text): every keyword k000..k299 and every operator at
+/// least once (so every token id below, at and above 256 is a leaf somewhere), every named token and rule,
+/// nested blocks, multi-line layouts, plus random statement lists.
+fn wide_docs(rng: &mut Rng, thorough: bool) -> Vec<(String, Vec<u8>)> {
+    const IDS: [&str; 7] = ["x", "foo", "a_b", "k3", "kk001", "z9", "k0000"];
+    const OPS_A: &[u8] = b"abcdefgh";
+    const OPS_B: &[u8] = b"stuvwxyz";
+    fn value(rng: &mut Rng, depth: usize) -> String {
+        match rng.below(if depth > 3 { 3 } else { 4 }) {
+            0 => IDS[rng.below(IDS.len())].to_string(),
+            1 => format!("{}", rng.below(100000)),
+            2 => ["\"\"", "\"s\"", "\"k001 ;\"", "\"\u{e9} x\""][rng.below(4)].to_string(),
+            _ => format!("({})", value(rng, depth + 1)),
+        }
+    }
+    fn kw_stmt(rng: &mut Rng, i: usize) -> String {
+        let sp = if rng.chance(1, 3) { "" } else { " " };
+        if i < 100 {
+            format!("k{i:03}{sp};")
+        } else if i < 200 {
+            format!("k{i:03} {}{sp};", IDS[rng.below(IDS.len())])
+        } else if rng.chance(1, 2) {
+            format!("k{i:03}{sp};")
+        } else {
+            format!("k{i:03} {}{sp};", value(rng, 0))
+        }
+    }
+    fn op_stmt(rng: &mut Rng, j: usize) -> String {
+        format!("{} ${}{} {};", IDS[rng.below(IDS.len())], OPS_A[j >> 3] as char, OPS_B[j & 7] as char, value(rng, 0))
+    }
+    fn item(rng: &mut Rng, depth: usize) -> String {
+        match rng.below(10) {
+            0 if depth < 4 => {
+                let n = rng.below(4);
+                let inner: Vec<String> = (0..n).map(|_| item(rng, depth + 1)).collect();
+                format!("{{ {} }}", inner.join(if rng.chance(1, 2) { "\n" } else { " " }))
+            }
+            1 => {
+                let j = rng.below(40);
+                op_stmt(rng, j)
+            }
+            2 => format!("#{} {};", ["a", "tag", "zz"][rng.below(3)], if rng.chance(1, 2) { "\"t\"" } else { "" }),
+            _ => {
+                let i = rng.below(300);
+                kw_stmt(rng, i)
+            }
+        }
+    }
+    let mut v: Vec<(String, Vec<u8>)> = Vec::new();
+    let mut push = |s: String| v.push(("wide-valid".to_string(), s.into_bytes()));
+    // every keyword once, 50 per document, one per line / blank separated alternately
+    for c in 0..6 {
+        let stmts: Vec<String> = (c * 50..c * 50 + 50).map(|i| kw_stmt(rng, i)).collect();
+        push(stmts.join(if c % 2 == 0 { "\n" } else { " " }));
+    }
+    // the breaker's shape: every 7th keyword followed by `;` (identifier / value where the rule wants one)
+    push((0..300).step_by(7).map(|i| kw_stmt(rng, i)).collect::<Vec<_>>().join(" "));
+    // every operator; every named token and rule
+    push((0..40).map(|j| op_stmt(rng, j)).collect::<Vec<_>>().join("\n"));
+    push("#!/bin/wide k001 ;\n#tag \"str\";\n{ k000; { k299 (((7))); } x $ez \"s\"; }\n#a;".to_string());
+    // one statement per document for keywords around the classes' borders (short documents: inline leaves)
+    for i in [0usize, 1, 99, 100, 199, 200, 250, 251, 252, 253, 254, 255, 256, 257, 258, 299] {
+        push(kw_stmt(rng, i));
+    }
+    for _ in 0..(if thorough { 80 } else { 10 }) {
+        let n = rng.range(1, 40);
+        let items: Vec<String> = (0..n).map(|_| item(rng, 0)).collect();
+        let sep = if rng.chance(1, 2) { "\n" } else { " " };
+        push(items.join(sep));
+    }
+    v
+}
+
+static PARSE_STARTED:std::sync::atomic::AtomicU64 = std::sync::atomic::AtomicU64::new(0);
 static CURRENT_SPEC: std::sync::Mutex<String> = std::sync::Mutex::new(String::new());
 
 fn now_secs() -> u64 {
@@ -651,7 +728,9 @@ fn main() {
         run_specs(&corpus, "c", &mut out, &mut st, &mut loaded, &mut get_lang);
     }
     let mut rng = Rng::new(seed_from_env());
-    let langs: Vec<String> = if only.is_empty() { zoo::list() } else { only };
+    let run_wide = only.is_empty() || only.iter().any(|l| l == WIDE);
+    only.retain(|l| l != WIDE);
+    let langs: Vec<String> = if only.is_empty() && !(run_wide && args.iter().any(|a| a == WIDE)) { zoo::list() } else { only };
     let docs_per_lang = if thorough { 120 } else { 16 };
     let mut case_no = 0usize;
     for id in langs {
@@ -721,6 +800,31 @@ fn main() {
         for (kind, text) in nest_docs(&id, thorough) {
             case_no += 1;
             emit_case(&mut out, &mut st, &format!("{id}-{case_no}"), lc, &mut parser, &text, &[], &[], &kind);
+        }
+    }
+    // Round 11b: the PRIVATE grammar zoo/c02wide (> 300 symbols: token and rule ids beyond the 8-bit symbol
+    // field of the inline leaf).  Runs LAST with its own Rng, so no other language's stream moves.
+    if run_wide && zoo::zoo_dir(WIDE).join("grammar.json").exists() {
+        if let Some(k) = get_lang(WIDE, &mut out, &mut loaded) {
+            let lc = &loaded[k];
+            let mut parser = Parser::new();
+            parser.set_language(&lc.built.language).unwrap();
+            let mut wrng = Rng::new(seed_from_env() ^ 0xc02_11b);
+            for (kind, text) in wide_docs(&mut wrng, thorough) {
+                case_no += 1;
+                // a runtime assertion (id 256 truncated to `end`) would abort the process: name the input first
+                out.flush().unwrap();
+                eprintln!("c02wide: begin spec={} {} -", WIDE, hex(&text));
+                emit_case(&mut out, &mut st, &format!("{WIDE}-{case_no}"), lc, &mut parser, &text, &[], &[], &kind);
+                if kind == "wide-valid" && wrng.chance(1, 2) {
+                    let m = gen::mutate_bytes(&mut wrng, &text);
+                    case_no += 1;
+                    out.flush().unwrap();
+                    eprintln!("c02wide: begin spec={} {} -", WIDE, hex(&m));
+                    emit_case(&mut out, &mut st, &format!("{WIDE}-{case_no}"), lc, &mut parser, &m, &[], &[], "mutated");
+                }
+            }
+            eprintln!("c02wide: done");
         }
     }
     out.flush().unwrap();
